@@ -4,6 +4,7 @@ import (
 	"fmt"
 	"go/ast"
 	"go/token"
+	"regexp"
 	"strings"
 )
 
@@ -23,85 +24,6 @@ func init() {
 	Register(Gen{Name: "C02Tables", Run: genC02Tables})
 }
 
-// c02Regexps collects every `name = regexp.MustCompile(<string literal>)`, at file level or
-// inside a function.
-func c02Regexps(f *ast.File) map[string]string {
-	out := map[string]string{}
-	lit := func(e ast.Expr) (string, bool) {
-		ce, ok := e.(*ast.CallExpr)
-		if !ok || len(ce.Args) != 1 {
-			return "", false
-		}
-		se, ok := ce.Fun.(*ast.SelectorExpr)
-		if !ok || se.Sel.Name != "MustCompile" {
-			return "", false
-		}
-		return strLit(ce.Args[0])
-	}
-	ast.Inspect(f, func(n ast.Node) bool {
-		switch x := n.(type) {
-		case *ast.ValueSpec:
-			for i, nm := range x.Names {
-				if i < len(x.Values) {
-					if s, ok := lit(x.Values[i]); ok {
-						out[nm.Name] = s
-					}
-				}
-			}
-		case *ast.AssignStmt:
-			for i, l := range x.Lhs {
-				if id, ok := l.(*ast.Ident); ok && i < len(x.Rhs) {
-					if s, ok := lit(x.Rhs[i]); ok {
-						out[id.Name] = s
-					}
-				}
-			}
-		}
-		return true
-	})
-	return out
-}
-
-func c02StringList(cl *ast.CompositeLit) ([]string, bool) {
-	at, ok := cl.Type.(*ast.ArrayType)
-	if !ok {
-		return nil, false
-	}
-	if id, ok := at.Elt.(*ast.Ident); !ok || id.Name != "string" {
-		return nil, false
-	}
-	var out []string
-	for _, e := range cl.Elts {
-		s, ok := strLit(e)
-		if !ok {
-			return nil, false
-		}
-		out = append(out, s)
-	}
-	return out, true
-}
-
-// c02ListsIn lists the []string literals inside the named function, in source order.
-func c02ListsIn(f *ast.File, fn string) [][]string {
-	var out [][]string
-	for _, d := range f.Decls {
-		fd, ok := d.(*ast.FuncDecl)
-		if !ok || fd.Name.Name != fn || fd.Body == nil {
-			continue
-		}
-		ast.Inspect(fd.Body, func(n ast.Node) bool {
-			if cl, ok := n.(*ast.CompositeLit); ok {
-				if l, ok := c02StringList(cl); ok {
-					out = append(out, l)
-					return false
-				}
-			}
-			return true
-		})
-	}
-	return out
-}
-
 func c02LeanList(name, doc string, l []string) string {
 	q := make([]string, len(l))
 	for i, s := range l {
@@ -114,135 +36,195 @@ func c02LeanStr(name, doc, s string) string {
 	return "/-- " + doc + " -/\ndef " + name + " : String := " + LeanString(s) + "\n\n"
 }
 
-func c02IntConst(f *ast.File, name string) (int64, error) {
-	var v int64
-	found := false
-	var err error
-	ast.Inspect(f, func(n ast.Node) bool {
-		vs, ok := n.(*ast.ValueSpec)
-		if !ok {
-			return true
-		}
-		for i, nm := range vs.Names {
-			if nm.Name == name && i < len(vs.Values) {
-				v, err = IntLit(vs.Values[i])
-				found = err == nil
-			}
-		}
-		return true
-	})
-	if !found {
-		return 0, fmt.Errorf("integer constant %s not found", name)
-	}
-	return v, nil
-}
-
-func genC02Tables(repo string) (string, error) {
-	out := Header("C02Tables", "java/jar/jar.go", "java/jar/ext.go", "rpm/native_db.go", "ruby/packagescanner.go", "rhel/distributionscanner.go", "alpine/distributionscanner.go", "debian/distributionscanner.go")
-
-	_, jf, err := ParseFile(repo, "java/jar/jar.go")
-	if err != nil {
-		return "", err
-	}
-	lists := c02ListsIn(jf, "parseManifest")
-	if len(lists) != 3 {
-		return "", fmt.Errorf("java/jar parseManifest: %d []string literals, want the 3 priority lists", len(lists))
-	}
-	out += c02LeanList("jarGroupKeys", "parseManifest: attributes that may state the group, in priority order", lists[0])
-	out += c02LeanList("jarArtifactKeys", "parseManifest: attributes that may state the artifact", lists[1])
-	out += c02LeanList("jarVersionKeys", "parseManifest: attributes that may state the version", lists[2])
-	rx := c02Regexps(jf)
-	for _, n := range []string{"nameRegexp", "manifestVer"} {
-		if _, ok := rx[n]; !ok {
-			return "", fmt.Errorf("java/jar: expression %s not found", n)
+// rxRegexpsUsedBy lists the distinct patterns of the regular expressions the
+// function works with: regexp.MustCompile(<constant expression>) calls in its
+// body, package-level variables it names that are compiled from a constant
+// expression, and the same for the package functions it calls (one level).
+func rxRegexpsUsedBy(p *rxPkg, fd *ast.FuncDecl) []string {
+	seen := map[string]bool{}
+	var out []string
+	add := func(s string) {
+		if !seen[s] {
+			seen[s] = true
+			out = append(out, s)
 		}
 	}
-	out += c02LeanStr("jarNameRegexp", "java/jar nameRegexp", rx["nameRegexp"])
-	out += c02LeanStr("jarManifestVer", "java/jar manifestVer", rx["manifestVer"])
-	for _, c := range []struct{ goName, leanName string }{{"maxNesting", "jarMaxNesting"}, {"MinSize", "jarMinSize"}} {
-		v, err := c02IntConst(jf, c.goName)
-		if err != nil {
-			return "", fmt.Errorf("java/jar: %w", err)
+	var visit func(fd *ast.FuncDecl, depth int)
+	visit = func(fd *ast.FuncDecl, depth int) {
+		if fd == nil || fd.Body == nil {
+			return
 		}
-		out += fmt.Sprintf("def %s : Nat := %d\n\n", c.leanName, v)
-	}
-	// nameHeader = []byte("\nName:")
-	nameHeader := ""
-	ast.Inspect(jf, func(n ast.Node) bool {
-		vs, ok := n.(*ast.ValueSpec)
-		if !ok {
-			return true
-		}
-		for i, nm := range vs.Names {
-			if nm.Name == "nameHeader" && i < len(vs.Values) {
-				if ce, ok := vs.Values[i].(*ast.CallExpr); ok && len(ce.Args) == 1 {
-					if s, ok := strLit(ce.Args[0]); ok {
-						nameHeader = s
+		sc := p.ScopeOf(fd)
+		file := p.FileOf(fd)
+		ast.Inspect(fd.Body, func(n ast.Node) bool {
+			switch x := n.(type) {
+			case *ast.CallExpr:
+				if sel, ok := x.Fun.(*ast.SelectorExpr); ok && (sel.Sel.Name == "MustCompile" || sel.Sel.Name == "MustCompilePOSIX") && len(x.Args) == 1 {
+					if pk, ok := sel.X.(*ast.Ident); ok && rxImportPath(file, pk.Name) == "regexp" {
+						if s, ok := sc.Str(x.Args[0]); ok {
+							add(s)
+						}
+					}
+					return true
+				}
+				if depth < 1 {
+					if callee := p.rxCallee(x); callee != nil && callee != fd {
+						visit(callee, depth+1)
+					}
+				}
+			case *ast.Ident:
+				if _, local := sc.local[x.Name]; local {
+					return true
+				}
+				if d := p.Decl(x.Name); d != nil && d.decl.Tok == token.VAR {
+					if s, err := regexpSource(p, x.Name); err == nil {
+						add(s)
 					}
 				}
 			}
-		}
-		return true
-	})
-	if nameHeader == "" {
-		return "", fmt.Errorf("java/jar: nameHeader not found")
-	}
-	out += c02LeanStr("jarNameHeader", "java/jar nameHeader", nameHeader)
-
-	_, ef, err := ParseFile(repo, "java/jar/ext.go")
-	if err != nil {
-		return "", err
-	}
-	var exts []string
-	ast.Inspect(ef, func(n ast.Node) bool {
-		cc, ok := n.(*ast.CaseClause)
-		if !ok {
 			return true
-		}
-		for _, e := range cc.List {
-			if s, ok := strLit(e); ok {
-				exts = append(exts, s)
-			}
-		}
-		return true
-	})
-	if len(exts) == 0 {
-		return "", fmt.Errorf("java/jar ValidExt: no extension literals found")
+		})
 	}
-	out += c02LeanList("jarValidExt", "java/jar ValidExt: accepted extensions", exts)
+	visit(fd, 0)
+	return out
+}
 
-	_, rf, err := ParseFile(repo, "rpm/native_db.go")
+// rxSnapJar*: the order in which Gen/C02Tables listed the extensions ValidExt accepts
+// (candidate inputs; every one is evaluated).
+var rxSnapJarExts = []string{".jar", ".war", ".ear", ".jpi", ".hpi"}
+
+// rxSnapJarKeys: candidate manifest attributes besides the string literals of java/jar.
+var rxSnapJarKeys = []string{"Group-Id", "Bundle-SymbolicName", "Implementation-Vendor-Id", "Implementation-Vendor", "Specification-Vendor",
+	"Implementation-Title", "Specification-Title", "Bundle-Name", "Extension-Name", "Short-Name",
+	"Bundle-Version", "Implementation-Version", "Plugin-Version", "Specification-Version"}
+
+var rxAttrName = regexp.MustCompile(`^[A-Za-z][A-Za-z0-9_-]{1,60}$`)
+
+// genC02Tables — EVALUATED (design/EXTRACT.md, round 2) by the probe go/cmd/rxprobe/c02tables:
+//
+//	jarGroupKeys, jarArtifactKeys, jarVersionKeys
+//	    the manifest attributes jar.Parse takes group, artifact and version from, in priority order: the probe
+//	    parses a jar whose manifest holds every candidate attribute (the string literals of java/jar that can be
+//	    attribute names, the snapshot's) with a value naming the attribute, removes the attribute that won the
+//	    role, and repeats until the role stays empty
+//	jarMaxNesting      how many jars along a chain of nested jars jar.Parse looks into
+//	jarMinSize         the exported constant, as compiled
+//	jarValidExt        ValidExt on every candidate extension (snapshot, literals, case variants and neighbours)
+//	jarNameRegexp, jarManifestVer, ruby*, rhelRelease, alpine*, rpmFilePatterns, jarNameHeader
+//	    the sources of the COMPILED expressions / the byte string, through hooks (RegexpSourcesForVerif, …)
+//	debianCodename     read tolerantly: the one regular expression debian's findDist works with (a local
+//	                   MustCompile, a package-level variable it names, or one in a helper it calls)
+func genC02Tables(repo string) (string, error) {
+	out := Header("C02Tables", "java/jar/jar.go", "java/jar/ext.go", "rpm/native_db.go", "ruby/packagescanner.go", "rhel/distributionscanner.go", "alpine/distributionscanner.go", "debian/distributionscanner.go")
+
+	jp, err := rxLoadPkg(repo, "java/jar")
 	if err != nil {
 		return "", err
 	}
-	pats := c02ListsIn(rf, "init")
-	if len(pats) != 1 {
-		return "", fmt.Errorf("rpm/native_db.go init: %d []string literals, want the pattern list", len(pats))
+	keys, exts := rxSet{}, rxSet{}
+	keys.add(rxSnapJarKeys...)
+	exts.add(rxSnapJarExts...)
+	for _, l := range jp.StringLits() {
+		if rxAttrName.MatchString(l) && !strings.EqualFold(l, "Name") && !strings.EqualFold(l, "Manifest-Version") {
+			keys.add(l)
+		}
+		if strings.HasPrefix(l, ".") && len(l) <= 8 && !strings.ContainsAny(l, "/ \t\n") {
+			exts.add(l)
+		}
 	}
-	out += c02LeanList("rpmFilePatterns", "rpm/native_db.go: which rpm-owned files are remembered for the language scanners", pats[0])
-
-	for _, src := range []struct {
-		file  string
-		names [][2]string
-	}{
-		{"ruby/packagescanner.go", [][2]string{{"gemspecPath", "rubyGemspecPath"}, {"nameLine", "rubyNameLine"}, {"versionLine", "rubyVersionLine"}}},
-		{"rhel/distributionscanner.go", [][2]string{{"releaseRegexp", "rhelRelease"}}},
-		{"alpine/distributionscanner.go", [][2]string{{"issueRegexp", "alpineIssue"}, {"edgeIssueRegexp", "alpineEdgeIssue"}}},
-		{"debian/distributionscanner.go", [][2]string{{"ver", "debianCodename"}}},
-	} {
-		_, f, err := ParseFile(repo, src.file)
+	for _, e := range exts.sorted() {
+		exts.add(strings.ToUpper(e), e+"s", e[:len(e)-1], e+" ")
+	}
+	exts.add(".zip", ".sar", ".rar", ".par", ".kar", ".aar", ".apk", ".class", "")
+	var ans struct {
+		Regexps      map[string]map[string]string `json:"regexps"`
+		FilePatterns string                       `json:"filePatterns"`
+		NameHeader   string                       `json:"nameHeader"`
+		MinSize      int                          `json:"minSize"`
+		Group        []string                     `json:"group"`
+		Artifact     []string                     `json:"artifact"`
+		Version      []string                     `json:"version"`
+		OrderMatters bool                         `json:"orderMatters"`
+		MaxNesting   int                          `json:"maxNesting"`
+		ValidExt     []string                     `json:"validExt"`
+	}
+	if err := rxProbe(repo, "c02tables", map[string]any{"keys": keys.sorted(), "exts": exts.sorted()}, &ans); err != nil {
+		return "", err
+	}
+	if ans.OrderMatters {
+		return "", fmt.Errorf("java/jar: which manifest attribute wins depends on the order of the manifest's lines")
+	}
+	out += c02LeanList("jarGroupKeys", "parseManifest: attributes that may state the group, in priority order", ans.Group)
+	out += c02LeanList("jarArtifactKeys", "parseManifest: attributes that may state the artifact", ans.Artifact)
+	out += c02LeanList("jarVersionKeys", "parseManifest: attributes that may state the version", ans.Version)
+	rx := func(pkg, name string) (string, error) {
+		s, ok := ans.Regexps[pkg][name]
+		if !ok {
+			return "", fmt.Errorf("c02tables probe: expression %s of %s not reported", name, pkg)
+		}
+		return s, nil
+	}
+	for _, n := range [][2]string{{"nameRegexp", "jarNameRegexp"}, {"manifestVer", "jarManifestVer"}} {
+		s, err := rx("jar", n[0])
 		if err != nil {
 			return "", err
 		}
-		rx := c02Regexps(f)
+		out += c02LeanStr(n[1], "java/jar "+n[0], s)
+	}
+	out += fmt.Sprintf("def jarMaxNesting : Nat := %d\n\n", ans.MaxNesting)
+	out += fmt.Sprintf("def jarMinSize : Nat := %d\n\n", ans.MinSize)
+	out += c02LeanStr("jarNameHeader", "java/jar nameHeader", ans.NameHeader)
+
+	// accepted extensions: the snapshot's order first, anything else after it
+	accepted := rxSet{}
+	accepted.add(ans.ValidExt...)
+	var extList []string
+	for _, e := range rxSnapJarExts {
+		if accepted[e] {
+			extList = append(extList, e)
+			delete(accepted, e)
+		}
+	}
+	extList = append(extList, accepted.sorted()...)
+	if len(extList) == 0 {
+		return "", fmt.Errorf("java/jar ValidExt accepts no candidate extension")
+	}
+	out += c02LeanList("jarValidExt", "java/jar ValidExt: accepted extensions", extList)
+
+	pats := rxSplitAlternatives(ans.FilePatterns)
+	if len(pats) == 0 {
+		return "", fmt.Errorf("rpm filePatterns: empty expression")
+	}
+	out += c02LeanList("rpmFilePatterns", "rpm/native_db.go: which rpm-owned files are remembered for the language scanners", pats)
+
+	for _, src := range []struct {
+		file, pkg string
+		names     [][2]string
+	}{
+		{"ruby/packagescanner.go", "ruby", [][2]string{{"gemspecPath", "rubyGemspecPath"}, {"nameLine", "rubyNameLine"}, {"versionLine", "rubyVersionLine"}}},
+		{"rhel/distributionscanner.go", "rhel", [][2]string{{"releaseRegexp", "rhelRelease"}}},
+		{"alpine/distributionscanner.go", "alpine", [][2]string{{"issueRegexp", "alpineIssue"}, {"edgeIssueRegexp", "alpineEdgeIssue"}}},
+	} {
 		for _, n := range src.names {
-			s, ok := rx[n[0]]
-			if !ok {
-				return "", fmt.Errorf("%s: expression %s not found", src.file, n[0])
+			s, err := rx(src.pkg, n[0])
+			if err != nil {
+				return "", err
 			}
 			out += c02LeanStr(n[1], src.file+" "+n[0], s)
 		}
 	}
-	_ = token.NoPos
+	dp, err := rxLoadPkg(repo, "debian")
+	if err != nil {
+		return "", err
+	}
+	fd := dp.Func("", "findDist")
+	if fd == nil {
+		return "", fmt.Errorf("debian: func findDist not found")
+	}
+	res := rxRegexpsUsedBy(dp, fd)
+	if len(res) != 1 {
+		return "", fmt.Errorf("debian findDist: expected one regular expression compiled from a constant, found %d %q", len(res), res)
+	}
+	out += c02LeanStr("debianCodename", "debian/distributionscanner.go ver", res[0])
 	return out + "end ClairModel.Gen.C02Tables\n", nil
 }
